@@ -774,10 +774,37 @@ class Class(Node):
         # Exclude the root node's name
         return ComponentRef.from_tuple(tuple(reversed(names[:-1])))
 
+    def _is_within_placeholder(self) -> bool:
+        """True for an empty package as parser.file_to_tree creates for the names of a within clause"""
+        return self.type == "package" and not (
+            self.symbols
+            or self.extends
+            or self.imports
+            or self.functions
+            or self.equations
+            or self.initial_equations
+            or self.statements
+            or self.initial_statements
+            or self.annotation
+            or self.comment
+            or self.encapsulated
+            or self.partial
+            or self.final
+        )
+
     def _extend(self, other: "Class") -> None:
         for class_name in other.classes.keys():
             if class_name in self.classes.keys():
-                self.classes[class_name]._extend(other.classes[class_name])
+                self_class = self.classes[class_name]
+                other_class = other.classes[class_name]
+                if self_class._is_within_placeholder():
+                    # Only a placeholder from a within clause so far (a file declaring
+                    # classes within this one was merged first): take over the contents
+                    # of the class definition, keep the classes already merged into it.
+                    for key, value in other_class.__dict__.items():
+                        if key not in ("classes", "parent"):
+                            self_class.__dict__[key] = value
+                self_class._extend(other_class)
             else:
                 self.classes[class_name] = other.classes[class_name]
 
